@@ -40,6 +40,8 @@ def plan(tier):
             for k in (1, 2, 3):
                 imgs = [[pol, None, 2 + i, 3] for i, pol in enumerate(["HH", "HV", "VV"][:k])]
                 cases.append({"spec": {"level": level, "images": imgs, "leader": {"n_mp": n_mp}}, "devs": [], "label": f"{level} mp={n_mp} images={k}"})
+        for scan in ("F1", "B2"):
+            cases.append({"spec": {"level": level, "images": [["HH", scan, 2, 3], ["HV", scan, 3, 2]]}, "devs": [], "label": f"{level} images named -{scan}"})
         # extreme multiplicities of the variable-length records (single point / single channel, maxima)
         for n_att, n_chan in ((1, 1), (1, 16), (136, 1), (2, 9)):
             cases.append({"spec": {"level": level, "images": [["HH", None, 1, 1]], "leader": {"n_att": n_att, "n_chan": n_chan}}, "devs": [], "label": f"{level} attitude points={n_att} channels={n_chan}"})
